@@ -17,6 +17,7 @@ import RpgpModel.Ops.C07
 import RpgpModel.Ops.C06
 import RpgpModel.Ops.C19
 import RpgpModel.Ops.C04
+import RpgpModel.Ops.C02
 /-!
 # Driver — `rpgp_model`: one request line in, one canonical answer line out.
 
@@ -26,7 +27,7 @@ Each property contributes a handler `Rpgp.Ops.Cxx.handle : String → Args → O
 open Rpgp
 
 def handlers : List (String → Args → Option String) :=
-  [Ops.C01.handle, Ops.C14.handle, Ops.C17.handle, Ops.C03.handle, Ops.C09.handle, Ops.C13.handle, Ops.C16.handle, Ops.C15.handle, Ops.C10.handle, Ops.C11.handle, Ops.C18.handle, Ops.C05.handle, Ops.C12.handle, Ops.C08.handle, Ops.C07.handle, Ops.C06.handle, Ops.C19.handle, Ops.C04.handle]
+  [Ops.C01.handle, Ops.C14.handle, Ops.C17.handle, Ops.C03.handle, Ops.C09.handle, Ops.C13.handle, Ops.C16.handle, Ops.C15.handle, Ops.C10.handle, Ops.C11.handle, Ops.C18.handle, Ops.C05.handle, Ops.C12.handle, Ops.C08.handle, Ops.C07.handle, Ops.C06.handle, Ops.C19.handle, Ops.C04.handle, Ops.C02.handle]
 
 def answer (line : String) : String :=
   match line.trimAscii.toString.splitOn " " with
